@@ -500,6 +500,23 @@ func (ex *tmplExec) fieldChain(recv tv, idents []string, args []parse.Node, dot 
 
 func (ex *tmplExec) callFunc(dot tv, name string, args []parse.Node, final tv, haveFinal bool) tv {
 	in := ex.in
+	if (name == "and" || name == "or") && !haveFinal && len(args) > 0 {
+		// text/template (Go >= 1.18): arguments are evaluated left to right and evaluation stops at the
+		// first empty (and) / non-empty (or) one, which is the result; otherwise the last argument
+		if _, user := ex.st.funcs[name]; !user {
+			var av tv
+			for i, a := range args {
+				av = ex.arg(dot, a)
+				if i == len(args)-1 {
+					break
+				}
+				if in.branch(ex.truth(av)) == (name == "or") {
+					break
+				}
+			}
+			return av
+		}
+	}
 	var avs []tv
 	for _, a := range args {
 		avs = append(avs, ex.arg(dot, a))
